@@ -1,4 +1,5 @@
 import ClusterVerif.Spec.C16
+import ClusterVerif.Lemmas.C16Http
 import Mathlib.Tactic.Cases
 import Mathlib.Tactic.SplitIfs
 import Mathlib.Tactic.ByCases
@@ -24,15 +25,21 @@ theorem asked_typeRec (d : Int) : (if typeRec d then PState.r else PState.d) = a
 
 /-! ### pin/ls -/
 
-theorem clsAt_ne_honestAny (a : Bool) (b : Beh) : clsAt a b ≠ .honestAny := by
-  cases b <;> cases a <;> simp [clsAt, clsOf]
-
 /-- the connector sees "recursive" for the source only from a daemon that holds a recursive pin and was
 asked for recursive pins -/
 theorem lsCid_r (t : Table) (c : Nat) (tr : Bool) (k : Cls) (hk : k ≠ .honestAny)
     (h : lsCid t c tr k = .status .r) : t c = .r ∧ tr = true := by
   unfold lsCid at h
   cases tr <;> split at h <;> (try split_ifs at h) <;> simp_all
+
+/-- … and from a daemon that lists pins whatever the filter: still only when it holds a recursive pin -/
+theorem lsCid_r_any (t : Table) (c : Nat) (tr : Bool) (k : Cls)
+    (h : lsCid t c tr k = .status .r) : t c = .r ∧ (k ≠ .honestAny → tr = true) := by
+  by_cases hk : k = .honestAny
+  · subst hk
+    simp only [lsCid] at h
+    exact ⟨by simpa using h, fun h' => absurd rfl h'⟩
+  · exact ⟨(lsCid_r t c tr k hk h).1, fun _ => (lsCid_r t c tr k hk h).2⟩
 
 /-- the short-cut is taken only when the daemon really holds the CID as asked -/
 theorem lsCid_asked (t : Table) (c : Nat) (d : Int) (k : Cls)
@@ -167,11 +174,11 @@ theorem pin_cases (i : Input) :
         pin i = ⟨(addCall i.table i.cid i.depth (i.beh 1)).1, [r0, addReq i.cid i.depth],
                  (addCall i.table i.cid i.depth (i.beh 1)).2, min i.norig 10⟩) ∨
     (∃ s f, lsCid i.table i.cid (typeRec i.depth) (clsFirst (i.beh 0)) = .status s ∧ s ≠ asked i.depth ∧ i.src = some f ∧
-        lsCid i.table f i.modeRec (clsAt false (i.beh 1)) = .status .r ∧
+        lsCid i.table f i.modeRec (clsFirst (i.beh 1)) = .status .r ∧
         pin i = ⟨(updCall i.table f i.cid (i.beh 2)).1, [r0, .ls f i.modeRec, .upd f i.cid false],
                  (updCall i.table f i.cid (i.beh 2)).2, min i.norig 10⟩) ∨
     (∃ s f, lsCid i.table i.cid (typeRec i.depth) (clsFirst (i.beh 0)) = .status s ∧ s ≠ asked i.depth ∧ i.src = some f ∧
-        lsCid i.table f i.modeRec (clsAt false (i.beh 1)) ≠ .status .r ∧
+        lsCid i.table f i.modeRec (clsFirst (i.beh 1)) ≠ .status .r ∧
         pin i = ⟨(addCall i.table i.cid i.depth (i.beh 2)).1, [r0, .ls f i.modeRec, addReq i.cid i.depth],
                  (addCall i.table i.cid i.depth (i.beh 2)).2, min i.norig 10⟩) := by
   intro r0
@@ -187,17 +194,11 @@ theorem pin_cases (i : Input) :
       | none => left; exact ⟨s, rfl, hs, rfl, by simp [hs, r0]⟩
       | some f =>
         right
-        by_cases hu : lsCid i.table f i.modeRec (clsAt false (i.beh 1)) = .status .r
+        by_cases hu : lsCid i.table f i.modeRec (clsFirst (i.beh 1)) = .status .r
         · left; exact ⟨s, f, rfl, hs, rfl, hu, by simp [hs, hu, r0]⟩
         · right; exact ⟨s, f, rfl, hs, rfl, hu, by simp [hs, hu, r0]⟩
 
 /-! ### failures are reported -/
-
-theorem clsAt_false_ne_noProgress (b : Beh) : clsAt false b ≠ .noProgress := by
-  cases b <;> simp [clsAt, clsOf]
-
-theorem clsFirst_eq (b : Beh) : clsFirst b = clsAt false b ∨ (clsFirst b = .honestAny ∧ clsAt false b = .honest) := by
-  cases b <;> simp [clsFirst, clsAt, clsOf]
 
 theorem lsCid_of_failure (i : Input) (x : Nat) (tr : Bool) (b : Beh)
     (hf : failure i 0 (.ls x tr) (clsAt false b) = true) : lsCid i.table x tr (clsFirst b) = .err := by
@@ -242,6 +243,36 @@ theorem addCall_of_stall (t : Table) (c : Nat) (d : Int) (b : Beh)
     (h : clsAt true b = .stall ∨ clsAt true b = .noProgress) : (addCall t c d b).1 = .err := by
   unfold addCall
   rcases h with h | h <;> simp [h]
+
+/-- a pin/update that is not answered ends in an error (the pin timeout bounds the request) -/
+theorem updCall_of_stall (t : Table) (f c : Nat) (b : Beh)
+    (h : clsAt false b = .stall) : (updCall t f c b).1 = .err := by
+  unfold updCall
+  simp [h]
+
+/-- which answers make the calls report success -/
+theorem updCall_ok_cls (t : Table) (f c : Nat) (b : Beh) (h : (updCall t f c b).1 = .ok) :
+    clsAt false b = .honest ∨ clsAt false b = .badBody := by
+  unfold updCall at h
+  split at h <;> (try split at h) <;> simp_all
+
+theorem rmCall_ok_cls (t : Table) (c : Nat) (b : Beh) (h : (rmCall t c b).1 = .ok) :
+    clsAt false b = .honest ∨ clsAt false b = .badBody ∨ clsAt false b = .notPinned ∨
+      (clsAt false b = .lostReply ∧ rmHonest t c = none) := by
+  unfold rmCall at h
+  split at h <;> (try split at h) <;> simp_all
+
+theorem lsCid_found_cls (t : Table) (c : Nat) (tr : Bool) (k : Cls) (s : PState)
+    (h : lsCid t c tr k = .status s) (hs : s ≠ .u) : k = .honest ∨ k = .honestAny := by
+  unfold lsCid at h
+  split at h <;> (try split_ifs at h) <;> simp_all
+
+/-- `clsAt false` of a behaviour is the class of its plain form, the filter-ignoring listing read as honest -/
+theorem clsAt_false_eq (b : Beh) :
+    clsAt false b = clsPost b.plain ∨ (clsAt false b = .honest ∧ clsPost b.plain = .honestAny) := by
+  unfold clsAt clsPlain
+  simp only [Bool.false_eq_true, if_false]
+  cases h : clsPost b.plain <;> simp
 
 @[simp] theorem isPinning_addReq (c : Nat) (d : Int) : isPinning (addReq c d) = true := rfl
 @[simp] theorem isAdd_addReq (c : Nat) (d : Int) : (addReq c d).isAdd = true := rfl
